@@ -13,7 +13,7 @@ RULE = ('2-5 timed sources (some sharing a signal name) on a started ActiveObjec
         'source has its ideal number of postings at the horizon. distinct_nontrivial = distinct (cancel mode, inside/outside, identical or '
         'rebuilt, coincident instant, context-switch sequence) tuples')
 CASES = {'quick': 1500, 'thorough': 80000}
-BUDGET = {'quick': 50, 'thorough': 300}
+BUDGET = {'quick': 150, 'thorough': 300}
 REQUIRE = {'runs': 600, 'cancel_by_id': 200, 'cancel_by_name': 200, 'cancel_from_handler': 150, 'rebuilt_argument': 200, 'cancel_coincides_with_posting': 200,
            'timer_and_canceller_runnable_together': 50, 'source_armed_during_cancel': 200,
            'runs_under_capacity_pressure': 100, 'capacity_pressure_one_of_two_refused': 80}
